@@ -86,7 +86,9 @@ func (fx *fnExec) execInstr(in ssa.Instruction) {
 				}
 			}
 		}
-		fx.vals[x] = FnV{Fn: fn, Bindings: bs, Ref: fx.freshRef("closure")}
+		fv := FnV{Fn: fn, Bindings: bs, Ref: fx.freshRef("closure")}
+		fx.vals[x] = fv
+		fx.closureSemantics(x, fv, where)
 	case *ssa.Call:
 		fx.execCall(x, &x.Call, where)
 	case *ssa.Extract:
@@ -611,6 +613,17 @@ func (fx *fnExec) mapLen(st *State, m Term, mt types.Type) Term {
 	hn, _, _, _ := fx.mapHeaps(mt)
 	ln := strings.TrimSuffix(hn, "#has") + "#len"
 	lh := fx.heap(st, ln, arrSort(SInt, fx.isort()))
+	if fx.mode != "bv" {
+		// typed memory: the number of entries of a map is never negative
+		key := "maplen>=0:" + lh.S + ":" + m.S
+		if !fx.declared[key] && !strings.Contains(m.S, "$q") {
+			fx.declared[key] = true
+			saveR := fx.curR
+			fx.curR = tTrue
+			fx.assume(app(SBool, ">=", tSel(lh, m), fx.iZero()))
+			fx.curR = saveR
+		}
+	}
 	return tIte(tEq(m, intLit64(0)), fx.iZero(), tSel(lh, m))
 }
 
@@ -904,4 +917,123 @@ func (fx *fnExec) needIdx() {
 		fx.declared["$idxax"] = true
 		fx.decls = append(fx.decls, "(assert (forall ((o$q Int) (k$q Int)) (! (= (idx o$q k$q) (+ o$q k$q)) :pattern ((idx o$q k$q)))))")
 	}
+}
+
+// closureSemantics: when the closure's function has a contract with "opt semantics holds", the verdict of the new
+// function value on every argument is the right-hand side of that contract's `ensures result == E` clauses, read with
+// the captured variables at their values now.  Sound only if (1) the closure is pure (declared `pure`, checked on its
+// body by its own obligations and frame), (2) no captured variable is assigned after the closure is made - neither by
+// the closure, nor by another closure, nor by the rest of the creating function (obligation closure:captured-final),
+// (3) E reads no memory (only parameters, captured values and uninterpreted record features).
+func (fx *fnExec) closureSemantics(x *ssa.MakeClosure, fv FnV, where string) {
+	fn := fv.Fn
+	ctr := fx.v.cs.Funcs[fnKey(fn)]
+	if ctr == nil || ctr.Opts["semantics"] != "holds" {
+		return
+	}
+	if !ctr.Pure {
+		panic(vcErr("%s: opt semantics holds needs a pure closure contract", fnKey(fn)))
+	}
+	if len(fn.Params) != 1 {
+		panic(vcErr("%s: opt semantics holds supports one-parameter closures", fnKey(fn)))
+	}
+	// (2) captured variables are final
+	final := true
+	for i, b := range x.Bindings {
+		if closureStores(fn, fn.FreeVars[i], map[*ssa.Function]bool{}) {
+			final = false
+		}
+		if a, ok := b.(*ssa.Alloc); ok {
+			if storesAfter(x, a) {
+				final = false
+			}
+		} else if _, isFV := b.(*ssa.FreeVar); isFV {
+			// a variable of an enclosing function, passed on: finality is that function's obligation
+		} else {
+			final = false
+		}
+	}
+	fx.oblige("closure:captured-final", "site.closure", boolTerm(final), where, "variables captured by "+fnKey(fn)+" are not assigned after the closure is made")
+	p := fn.Params[0]
+	q := Term{"c$" + san(p.Name()) + "$q", SInt}
+	env := &SpecEnv{fx: fx, cur: fx.st, old: fx.st, names: map[string]SV{}, bound: map[string]SV{}, callee: true}
+	env.names[p.Name()] = Sc{q, p.Type()}
+	env.bound[p.Name()] = Sc{q, p.Type()}
+	for i, b := range fv.Bindings {
+		var v SV
+		if ad, ok := b.(Ad); ok {
+			v = fx.load(ad)
+		} else {
+			v = b
+		}
+		env.names[fn.FreeVars[i].Name()] = v
+	}
+	var pre []Term
+	for _, c := range ctr.Requires {
+		pre = append(pre, fx.evalBool(c.E, env))
+	}
+	n := 0
+	for _, c := range ctr.Ensures {
+		eq, ok := c.E.(EBin)
+		if !ok || eq.Op != "==" {
+			continue
+		}
+		if id, isId := eq.X.(EIdent); !isId || id.Name != "result" {
+			continue
+		}
+		rhs := fx.evalBool(eq.Y, env)
+		if strings.Contains(rhs.S, "(select ") {
+			panic(vcErr("%s: the semantics clause %q reads memory; use uninterpreted record features", fnKey(fn), c.Src))
+		}
+		fx.declareFun("holds", []string{SInt, SInt}, SBool)
+		hold := app(SBool, "holds", fv.Ref, q)
+		body := tImp(tAnd(pre...), Term{"(= " + hold.S + " " + rhs.S + ")", SBool})
+		fx.assume(Term{fmt.Sprintf("(forall ((%s Int)) (! %s :pattern (%s)))", q.S, body.S, hold.S), SBool})
+		n++
+	}
+	if n == 0 {
+		panic(vcErr("%s: opt semantics holds needs a clause `ensures result == E`", fnKey(fn)))
+	}
+}
+
+// storesAfter: some Store to the variable a may execute after the MakeClosure x (same block later, or a block
+// reachable from x's block), or another closure made in the function assigns it.
+func storesAfter(x *ssa.MakeClosure, a *ssa.Alloc) bool {
+	fn := x.Parent()
+	reach := map[*ssa.BasicBlock]bool{}
+	var walk func(b *ssa.BasicBlock)
+	walk = func(b *ssa.BasicBlock) {
+		for _, s := range b.Succs {
+			if !reach[s] {
+				reach[s] = true
+				walk(s)
+			}
+		}
+	}
+	walk(x.Block())
+	for _, b := range fn.Blocks {
+		after := reach[b]
+		for _, in := range b.Instrs {
+			if in == ssa.Instruction(x) {
+				after = true
+				continue
+			}
+			switch y := in.(type) {
+			case *ssa.Store:
+				if y.Addr == ssa.Value(a) && after {
+					return true
+				}
+			case *ssa.MakeClosure:
+				if y == x {
+					continue
+				}
+				for i, bnd := range y.Bindings {
+					if bnd == ssa.Value(a) && closureStores(y.Fn.(*ssa.Function), y.Fn.(*ssa.Function).FreeVars[i], map[*ssa.Function]bool{}) {
+						return true
+					}
+				}
+			}
+		}
+	}
+	return false
 }
